@@ -340,7 +340,7 @@ def _model_classes(proj):
 
 def alias_rules(check):
     pid, proj = check.pid, check.proj
-    if pid not in ("C01", "C15", "C16", "C17", "C19", "C20"):
+    if pid not in ("C01", "C02", "C15", "C16", "C17", "C19", "C20"):
         return
     alias_example()
     an = alias_analysis(proj)
@@ -373,6 +373,33 @@ def alias_rules(check):
                                     f.loc(), key="returns-stored")
         if not bad:
             check.ok("VAR-PURE", "%d conversion / output-variable functions" % n, "none changes (an element of) its argument in place, directly or through the functions it calls; built-in example: 1 in-place change through a returned alias reported, its copying twin silent")
+    if pid == "C02":
+        # FLUX-PURE: a numerical flux is a FUNCTION of the two states: it leaves them as it found them (the caller evaluates the
+        # mirrored problem, the physical flux, the next flux name from the same arrays) and returns arrays of its own (a result
+        # kept in storage of the model is overwritten by the next evaluation while the caller still holds it)
+        n = bad = 0
+        seen = set()
+        for ci in _model_classes(proj):
+            reg = ci.registries.get("_numfluxdict")
+            for f in (list(reg["entries"].values()) if reg else []) + [ci.methods[nm] for nm in ("numflux",) if nm in ci.methods]:
+                if f.qualname in seen:
+                    continue
+                seen.add(f.qualname)
+                n += 1
+                for o, (ln, text, via, kind) in an.summ[f.qualname].mut.items():
+                    if o.startswith("P:") and kind == "inplace":
+                        bad += 1
+                        check.violation("FLUX-PURE", f.qualname, "the flux changes one of the states it is given in place (`%s`, line %d%s; `%s` is the caller's array): the value returned is right, the state left behind is not -- the mirrored evaluation, the physical flux of the same state, the next call all start from corrupted data"
+                                        % (text, ln, (", through %s" % via) if via else "", o[2:]), "%s:%d" % (f.module.relpath, ln), key="mutates-arg")
+                        break
+                kept = sorted(o for o in (an.summ[f.qualname].ret.objs | an.summ[f.qualname].ret.elts) if o.startswith("S:") and o != "S:")
+                if kept:
+                    bad += 1
+                    check.violation("FLUX-PURE", f.qualname, "a component of the returned flux IS storage kept on the model (self.%s, written with out= / re-used between calls): a flux the caller still holds (the first of two mirrored evaluations, the x-face flux while the y-face flux is computed) silently takes the values of the next evaluation" % kept[0][2:],
+                                    f.loc(), key="returns-stored")
+        check.floor("registered numerical fluxes", n, 12)
+        if not bad:
+            check.ok("FLUX-PURE", "%d registered numerical fluxes and dispatchers" % n, "none changes a state it is given in place (directly or through a helper) and none returns storage kept on the model")
     if pid in ("C15", "C16"):
         n = bad = 0
         for f in proj.all_functions():
